@@ -157,7 +157,7 @@ func watchdog(tier string) time.Duration {
 		}
 	}
 	if tier == "thorough" {
-		return 3 * time.Hour
+		return 6 * time.Hour // generous: a firing watchdog is inconclusive, and the machine may be loaded
 	}
 	return 20 * time.Minute
 }
